@@ -397,8 +397,8 @@ template <typename I>
 inline bool lcm_ok(I a, I b)
 {
     if (!abs_ok(a) || !abs_ok(b)) { return false; }
-    using W2 = __int128;
-    W2 x = a < 0 ? -(W2)a : (W2)a, y = b < 0 ? -(W2)b : (W2)b;
+    using W2 = unsigned __int128; // |a| / gcd * |b| < 2^128 for 64-bit operands
+    W2 x = a < 0 ? W2(0) - (W2)(__int128)a : (W2)a, y = b < 0 ? W2(0) - (W2)(__int128)b : (W2)b;
     if (x == 0 || y == 0) { return true; }
     W2 g = x, h = y;
     while (h != 0) {
@@ -406,7 +406,6 @@ inline bool lcm_ok(I a, I b)
         g    = h;
         h    = t;
     }
-    // the result has the promoted common type (int for narrow operands)
     using CT = std::common_type_t<I, I>;
     return x / g * y <= (W2)std::numeric_limits<CT>::max();
 }
